@@ -46,6 +46,9 @@ type pipePlan struct {
 	// not WithWorkers(N); N is then the capacity the option stands for (see fxOptsCase / mrOptsCase)
 	Opt   string `json:"option,omitempty"`
 	Class string `json:"-"`
+	// fx-options: the worker-limited stage sits in a longer pipeline
+	Up   string `json:"upstream_stage,omitempty"`
+	Term string `json:"terminal,omitempty"`
 }
 
 var errVerifCancel = errors.New("verif-cancel")
@@ -428,31 +431,112 @@ func fxDrive(c *kit.Case, p pipePlan, opts []fx.Option) {
 		fx.Just(1, 2, 3, 4, 5, 6, 7, 8).Walk(func(item any, pipe chan<- any) { pipe <- item }, prev).Done()
 		c.Obs(p.Prim+"_unrelated_stage_with_other_worker_options_ran_before", 1)
 	}
+	in := func() fx.Stream { return fxUpstream(p.Up, src()) }
 	pp.run(func() {
 		switch p.API {
 		case "Walk":
-			src().Walk(func(item any, pipe chan<- any) {
+			fxTerminal(p.Term, in().Walk(func(item any, pipe chan<- any) {
 				pp.body(item.(int), func(it pipeItem) {
 					for k := 0; k < it.Writes; k++ {
 						pipe <- item
 					}
 				})
-			}, opts...).Done()
+			}, opts...))
 		case "Parallel":
-			src().Parallel(func(item any) { pp.body(item.(int), nil) }, opts...)
+			in().Parallel(func(item any) { pp.body(item.(int), nil) }, opts...)
 		case "Map":
-			src().Map(func(item any) any {
+			fxTerminal(p.Term, in().Map(func(item any) any {
 				pp.body(item.(int), nil)
 				return item
-			}, opts...).Done()
+			}, opts...))
 		default:
-			src().Filter(func(item any) bool {
+			fxTerminal(p.Term, in().Filter(func(item any) bool {
 				pp.body(item.(int), nil)
 				return item.(int)%2 == 0
-			}, opts...).Done()
+			}, opts...))
 		}
 	})
 	if c.Index < 2 {
 		c.Sample(p.Prim, 2, map[string]any{"plan": p, "max_workers_inside_seen": pp.m.g.Max(), "items_processed": pp.exited.Load()})
+	}
+}
+
+// Stages around the worker-limited one (fx-options). All of them hand every item on and
+// consume the whole stream, so the barrier items still arrive after the regular ones left.
+var fxUps = []string{"", "", "Buffer(0)", "Buffer(3)", "Buffer(-1)", "Concat(empty)", "Distinct(identity)", "Head(huge)", "Skip(0)", "fx.Concat"}
+
+var fxTerms = []string{"Done", "Done", "Count", "ForEach", "ForAll(drain)", "Last", "Max", "Min", "Merge.Done", "Reverse.Done", "Sort.Done",
+	"Group.Done", "Split(3).Done", "Tail(2).Done", "AllMatch(true)", "NoneMatch(false)", "AnyMatch(false)", "Reduce(drain)", "Skip(2).Done", "Head(huge).Done"}
+
+func fxUpstream(kind string, s fx.Stream) fx.Stream {
+	switch kind {
+	case "Buffer(0)":
+		return s.Buffer(0)
+	case "Buffer(3)":
+		return s.Buffer(3)
+	case "Buffer(-1)":
+		return s.Buffer(-1)
+	case "Concat(empty)":
+		return s.Concat(fx.Just())
+	case "fx.Concat":
+		return fx.Concat(s, fx.Just(), fx.Just())
+	case "Distinct(identity)":
+		return s.Distinct(func(item any) any { return item })
+	case "Head(huge)":
+		return s.Head(1 << 40)
+	case "Skip(0)":
+		return s.Skip(0)
+	}
+	return s
+}
+
+func fxTerminal(kind string, s fx.Stream) {
+	less := func(a, b any) bool { return a.(int) < b.(int) }
+	switch kind {
+	case "Count":
+		s.Count()
+	case "ForEach":
+		s.ForEach(func(any) {})
+	case "ForAll(drain)":
+		s.ForAll(func(pipe <-chan any) {
+			for range pipe {
+			}
+		})
+	case "Last":
+		s.Last()
+	case "Max":
+		s.Max(less)
+	case "Min":
+		s.Min(less)
+	case "Merge.Done":
+		s.Merge().Done()
+	case "Reverse.Done":
+		s.Reverse().Done()
+	case "Sort.Done":
+		s.Sort(less).Done()
+	case "Group.Done":
+		s.Group(func(item any) any { return item.(int) % 3 }).Done()
+	case "Split(3).Done":
+		s.Split(3).Done()
+	case "Tail(2).Done":
+		s.Tail(2).Done()
+	case "AllMatch(true)":
+		s.AllMatch(func(any) bool { return true })
+	case "NoneMatch(false)":
+		s.NoneMatch(func(any) bool { return false })
+	case "AnyMatch(false)":
+		s.AnyMatch(func(any) bool { return false })
+	case "Reduce(drain)":
+		s.Reduce(func(pipe <-chan any) (any, error) {
+			for range pipe {
+			}
+			return nil, nil
+		})
+	case "Skip(2).Done":
+		s.Skip(2).Done()
+	case "Head(huge).Done":
+		s.Head(1 << 40).Done()
+	default:
+		s.Done()
 	}
 }
